@@ -1,6 +1,231 @@
 import Fabio.Driver.Proto
-namespace Fabio.Driver.C01
-open Lean Fabio.Driver
+import Fabio.Driver.RouteJson
+import Fabio.Model.C01
+import Fabio.Model.Route
+/-!
+Driver handlers for C01.
 
-def streams : List (String × Handler) := []
+* `c01.passing`  — `checksWithTagPrefix` / `passingServices` on generated check lists (indices of the result).
+* `c01.join`     — `makeConfig` / `serviceConfig` against a catalog (sorted command lines).
+* `c01.pipeline` — the whole chain on a registry history: expected table for the final registry state.
+
+The *model* column is computed with the model functions (`watchOnce`, `passingServices`, `joined keyPair`);
+the *spec* column is computed from the English rule `HealthyAt` directly (decidable instance), never through
+`passingServices`/`checksWithTagPrefix`/`joined`.
+
+`buildSimple` mirrors `routecmd.build` (owned by C14) for the tag fragment the C01 generators emit:
+`<prefix>[host]/path`, `<prefix>:port`, options `proto=tcp|https|grpc|grpcs`, other `k=v` options, plain tags;
+no `$` expansion, no `weight=`/`redirect=`, ASCII only.
+-/
+namespace Fabio.Driver.C01
+open Lean Fabio.Driver Fabio.Driver.RouteJson Fabio.Model.C01
+open Fabio.Model.Route (RouteDef Cmd Env newTable)
+
+def S (s : String) : Str := s.toList
+
+def checkOf (j : Json) : Except String Check := do
+  let tags ← strList ((j.getObjVal? "tags").toOption.getD .null)
+  return { node := getStrD j "node", checkID := getStrD j "id", serviceID := getStrD j "sid",
+           serviceName := getStrD j "name", status := getStrD j "status", tags }
+
+def instOf (j : Json) : Except String Instance := do
+  let tags ← strList ((j.getObjVal? "tags").toOption.getD .null)
+  let port := (j.getObjValAs? Nat "port").toOption.getD 0
+  return { node := getStrD j "node", serviceID := getStrD j "sid", serviceName := getStrD j "name",
+           address := getStrD j "addr", serviceAddress := getStrD j "saddr", port, tags }
+
+def arrOf {α} (f : Json → Except String α) (j : Json) : Except String (List α) :=
+  match j with
+  | .arr a => a.toList.mapM f
+  | .null => pure []
+  | _ => throw "expected array"
+
+def field (j : Json) (k : String) : Json := (j.getObjVal? k).toOption.getD .null
+
+/-! ### `routecmd.build` for the generated fragment -/
+
+def isSpace (c : Char) : Bool := c == ' ' || c == '\t' || c == '\n' || c == '\r'
+def trimSpace (s : Str) : Str := ((s.dropWhile isSpace).reverse.dropWhile isSpace).reverse
+
+def splitFirst (c : Char) (s : Str) : Str × Option Str :=
+  match Fabio.indexOf c s with
+  | none => (s, none)
+  | some i => (s.take i, some (s.drop (i+1)))
+
+/-- `strings.Fields` for ASCII white space -/
+def fields (s : Str) : List Str :=
+  let rec go (cur : Str) (acc : List Str) : Str → List Str
+    | [] => (if cur.isEmpty then acc else acc ++ [cur.reverse])
+    | c :: cs => if isSpace c then go [] (if cur.isEmpty then acc else acc ++ [cur.reverse]) cs else go (c :: cur) acc cs
+  go [] [] s
+
+def joinWith (sep : Str) : List Str → Str
+  | [] => []
+  | [x] => x
+  | x :: xs => x ++ sep ++ joinWith sep xs
+
+/-- command line and structured definition of every route tag of a catalog entry -/
+def buildSimple (pfx : Str) (i : Instance) : List (Str × RouteDef) :=
+  let tags := i.tags.map trimSpace
+  let routetags := tags.filter (fun t => pfx.isPrefixOf t)
+  let svctags := tags.filter (fun t => !pfx.isPrefixOf t)
+  routetags.map (fun tag =>
+    let s := trimSpace (tag.drop pfx.length)
+    let (r0, optsO) := splitFirst ' ' s
+    let opts := fields (optsO.getD [])
+    let route :=
+      if (S ":").isPrefixOf r0 then r0
+      else match splitFirst '/' r0 with
+        | (_, none) => r0
+        | (h, some p) => Fabio.lowerL h ++ '/' :: p
+    let addr := if i.serviceAddress.isEmpty then i.address else i.serviceAddress
+    let hp := addr ++ S ":" ++ S (toString i.port)
+    let dst := opts.foldl (fun d o =>
+      if o == S "proto=tcp" then S "tcp://" ++ hp
+      else if o == S "proto=https" then S "https://" ++ hp
+      else if o == S "proto=grpcs" then S "grpcs://" ++ hp
+      else if o == S "proto=grpc" then S "grpc://" ++ hp
+      else d) (S "http://" ++ hp ++ S "/")
+    let ropts := opts.filter (fun o => !(o == S "proto=tcp" || o == S "proto=https" || o == S "proto=grpcs" || o == S "proto=grpc"))
+    let line := S "route add " ++ i.serviceName ++ S " " ++ route ++ S " " ++ dst ++
+      (if svctags.isEmpty then [] else S " tags \"" ++ joinWith (S ",") svctags ++ S "\"") ++
+      (if ropts.isEmpty then [] else S " opts \"" ++ joinWith (S " ") ropts ++ S "\"")
+    let optPairs : List (Str × Str) := ropts.map (fun o =>
+      match splitFirst '=' o with
+      | (k, some v) => (k, v)
+      | (k, none) => (k, []))
+    let d : RouteDef :=
+      { cmd := Cmd.add, service := i.serviceName, src := route, dst := dst, weight := 0, tags := svctags, opts := optPairs }
+    (line, d))
+
+def linesOf (pfx : Str) (i : Instance) : List Str := (buildSimple pfx i).map (·.1)
+
+def catalogFn (cat : List Instance) (name : Str) : List Instance := cat.filter (fun i => i.serviceName == name)
+
+/-- two different (node, service id) pairs among the given ones with the same dotted key (the class of D01) -/
+def dottedCollision (ps : List (Str × Str)) : Bool :=
+  ps.any (fun a => ps.any (fun b => a != b && keyDot a.1 a.2 == keyDot b.1 b.2))
+
+def pairsOf (cs : List Check) (cat : List Instance) : List (Str × Str) :=
+  cs.map (fun c => (c.node, c.serviceID)) ++ cat.map (fun i => (i.node, i.serviceID))
+
+/-- the English rule for a catalog instance: it has a service check (carrying its service name) and is
+healthy over the full list of checks -/
+def routedSpec (checks : List Check) (st : List Str) (strict : Bool) (i : Instance) : Bool :=
+  !i.serviceName.isEmpty &&
+  checks.any (fun c => c.node == i.node && c.serviceID == i.serviceID && c.serviceName == i.serviceName && isServiceCheck c) &&
+  decide (HealthyAt checks st strict i.node i.serviceID)
+
+def jLines (ls : List Str) : Json := Json.arr (ls.map str).toArray
+
+/-! ### c01.passing -/
+
+def natList (j : Json) : Except String (List Int) :=
+  match j with
+  | .arr a => a.toList.mapM (fun x => match x.getInt? with | .ok n => pure n | .error e => throw e)
+  | _ => throw "expected array of ints"
+
+def jInts (l : List Nat) : Json := Json.arr (l.map (fun n => Json.num (JsonNumber.fromNat n))).toArray
+
+def strictlyIncreasing : List Int → Bool
+  | a :: b :: r => a < b && strictlyIncreasing (b :: r)
+  | _ => true
+
+def passingH : Handler := fun inp impl => do
+  let pfx := getStrD inp "prefix"
+  let st ← strList (field inp "status")
+  let strict := (inp.getObjValAs? Bool "strict").toOption.getD false
+  let cs ← arrOf checkOf (field inp "checks")
+  let n := cs.length
+  let ics := (List.range n).zip cs
+  -- model
+  let mFilter := (ics.filter (fun p => isNodeOrMaint p.2 || hasTagPrefix pfx p.2)).map (·.1)
+  let mPassing := (ics.filter (fun p => keep cs st strict p.2)).map (·.1)
+  let fl := checksWithTagPrefix pfx cs
+  let mWatch := ((ics.filter (fun p => isNodeOrMaint p.2 || hasTagPrefix pfx p.2)).filter (fun p => keep fl st strict p.2)).map (·.1)
+  let model := Json.mkObj [("filter", jInts mFilter), ("passing", jInts mPassing), ("watch", jInts mWatch)]
+  -- the implementation's answer
+  let iFilter ← natList (field impl "filter")
+  let iPassing ← natList (field impl "passing")
+  let iWatch ← natList (field impl "watch")
+  -- spec, from the English rule
+  let kept (c : Check) : Bool :=
+    c.checkID == serf || c.checkID == nodeMaint || (S "_service_maintenance").isPrefixOf c.checkID ||
+    c.tags.any (fun t => pfx.isPrefixOf t)
+  let specFilter := strictlyIncreasing iFilter && ics.all (fun p => iFilter.contains (Int.ofNat p.1) == kept p.2)
+  let specPassing := strictlyIncreasing iPassing &&
+    ics.all (fun p => iPassing.contains (Int.ofNat p.1) ==
+      (isServiceCheck p.2 && decide (HealthyAt cs st strict p.2.node p.2.serviceID)))
+  let implF := (ics.filter (fun p => iFilter.contains (Int.ofNat p.1))).map (·.2)
+  let specWatch := strictlyIncreasing iWatch &&
+    ics.all (fun p => iWatch.contains (Int.ofNat p.1) ==
+      (iFilter.contains (Int.ofNat p.1) && isServiceCheck p.2 && decide (HealthyAt implF st strict p.2.node p.2.serviceID)))
+  let svcCount := (cs.filter isServiceCheck).length
+  let blocked := cs.any (fun c => c.checkID == nodeMaint || (c.status == critical && (c.checkID == serf || svcMaintPfx.isPrefixOf c.checkID)))
+  let tag := (if strict then "strict" else "one") ++ (if blocked then "-blocked" else "-noblock") ++
+    (if !specFilter then "-filterspec" else if !specPassing then "-passingspec" else if !specWatch then "-watchspec" else "")
+  return ({ model, agree := model == impl, spec := specFilter && specPassing && specWatch,
+            nontrivial := decide (2 ≤ svcCount) && !mPassing.isEmpty && mPassing.length != svcCount, tag } : Verdict).toJson
+
+/-! ### c01.join -/
+
+def joinH : Handler := fun inp impl => do
+  let pfx := getStrD (field inp "cfg") "prefix"
+  let passing ← arrOf checkOf (field inp "passing")
+  let cat ← arrOf instOf (field impl "catalog")
+  let iLines ← strList (field impl "lines")
+  let mLines := makeConfigLines keyPair (linesOf pfx) passing (catalogFn cat)
+  let want := cat.filter (fun i => !i.serviceName.isEmpty &&
+    passing.any (fun c => c.serviceName == i.serviceName && c.node == i.node && c.serviceID == i.serviceID))
+  let sLines := sortDesc (want.flatMap (linesOf pfx))
+  let spec := sLines == iLines
+  let ps := pairsOf passing cat
+  let tag := if spec then (if dottedCollision ps then "dotted" else "plain")
+             else if dottedCollision ps then "dotted-key-collision" else "lines-mismatch"
+  return ({ model := jLines mLines, agree := mLines == iLines, spec,
+            nontrivial := decide (1 ≤ sLines.length) && want.length != cat.length, tag } : Verdict).toJson
+
+/-! ### c01.pipeline -/
+
+def expectedTable (env : Env) (pfx : Str) (cat : List Instance) (lines : List Str) (kv : List RouteDef) :
+    Except Fabio.Model.Route.Err Fabio.Model.Route.Table :=
+  let tbl := cat.flatMap (buildSimple pfx)
+  newTable env (lines.filterMap (fun l => tbl.lookup l) ++ kv)
+
+def pipelineH : Handler := fun inp impl => do
+  let cfg := field inp "cfg"
+  let pfx := getStrD cfg "prefix"
+  let st ← strList (field cfg "status")
+  let strict := (cfg.getObjValAs? Bool "strict").toOption.getD false
+  let reg := field impl "registry"
+  let checks ← arrOf checkOf (field reg "checks")
+  let cat ← arrOf instOf (field reg "catalog")
+  let kv ← arrOf routeDef (field reg "kv")
+  let env := envOf (field impl "oracle")
+  let implTable := field impl "table"
+  -- model: the functions of the model, repaired key
+  let mLines := watchOnce keyPair (linesOf pfx) pfx st strict checks (catalogFn cat)
+  -- spec: the English rule
+  let adv := cat.filter (fun i => !(buildSimple pfx i).isEmpty)
+  let routed := adv.filter (routedSpec checks st strict)
+  let sLines := sortDesc (routed.flatMap (linesOf pfx))
+  let ps := pairsOf (checks.filter isServiceCheck) cat
+  let feature := (if kv.isEmpty then "nokv" else "kv") ++ (if strict then "-strict" else "-one")
+  match expectedTable env pfx cat mLines kv, expectedTable env pfx cat sLines kv with
+  | .ok mt, .ok stb =>
+    let mj := tableJson mt
+    let agree := closeJson mj implTable
+    let spec := closeJson (tableJson stb) implTable
+    let tag := if spec then feature
+               else if dottedCollision ps then "dotted-key-collision" else "table-mismatch"
+    return ({ model := mj, agree, spec,
+              nontrivial := !routed.isEmpty && (routed.length != adv.length || !kv.isEmpty), tag } : Verdict).toJson
+  | a, _ =>
+    -- the final text does not build: the property (and `quiescent_table`) say nothing about this state
+    let why := match a with | .error e => reprStr e | .ok _ => "spec side"
+    return ({ model := Json.str ("final-text-does-not-build: " ++ why), agree := true, spec := true, nontrivial := false,
+              tag := "final-text-invalid" } : Verdict).toJson
+
+def streams : List (String × Handler) :=
+  [("c01.passing", passingH), ("c01.join", joinH), ("c01.pipeline", pipelineH)]
 end Fabio.Driver.C01
